@@ -207,29 +207,36 @@ func (w *Work) BuildPrograms(specs []ProgSpec, genOpts instrument.Options, extra
 					return nil, "", err
 				}
 				job := gtJob{Bop: v.bop, Out: filepath.Join(dir, "gen.go"), Pkg: pkg, Mask: m}
-				if sp.Schema.HasLib() && !v.old {
+				vs := sp.Schema
+				if v.old {
+					vs = sp.Old
+				}
+				if vs.HasLib() {
 					// the program imports a library file: one library package per mask
 					// (never private: namespaced imports are assumed exported), and an
 					// importing file that names it
 					libPkg := fmt.Sprintf("%slm%02d", sp.ID, m)
+					if v.old {
+						libPkg = fmt.Sprintf("%solm%02d", sp.ID, m)
+					}
 					libFile := libPkg + ".bop"
 					libPath := filepath.Join(w.H, "bop", libFile)
 					appPath := filepath.Join(w.H, "bop", pkg+".bop")
-					if err := os.WriteFile(libPath, []byte(sp.Schema.PrintLib("verifh/gen/"+libPkg)), 0o644); err != nil {
+					if err := os.WriteFile(libPath, []byte(vs.PrintLib("verifh/gen/"+libPkg)), 0o644); err != nil {
 						return nil, "", err
 					}
-					if err := os.WriteFile(appPath, []byte(sp.Schema.PrintApp(libFile)), 0o644); err != nil {
+					if err := os.WriteFile(appPath, []byte(vs.PrintApp(libFile)), 0o644); err != nil {
 						return nil, "", err
 					}
 					job.Bop = appPath
-					job.Combined = sp.Schema.Combined
-					if !sp.Schema.Combined {
+					job.Combined = vs.Combined
+					if !vs.Combined {
 						libDir := filepath.Join(w.H, "gen", libPkg)
 						if err := os.MkdirAll(libDir, 0o755); err != nil {
 							return nil, "", err
 						}
 						jobs = append(jobs, gtJob{Bop: libPath, Out: filepath.Join(libDir, "gen.go"), Pkg: libPkg, Mask: m &^ OptPrivate})
-						built = append(built, Built{Prog: sp.ID, Mask: m, Pkg: libPkg, Lib: true})
+						built = append(built, Built{Prog: sp.ID, Mask: m, Old: v.old, Pkg: libPkg, Lib: true})
 					}
 				}
 				jobs = append(jobs, job)
@@ -328,15 +335,15 @@ func (w *Work) BuildPrograms(specs []ProgSpec, genOpts instrument.Options, extra
 	libOK := map[string]bool{}
 	for _, b := range built {
 		if b.Lib {
-			libOK[fmt.Sprintf("%s/%d", b.Prog, b.Mask)] = b.OK
+			libOK[fmt.Sprintf("%s/%d/%v", b.Prog, b.Mask, b.Old)] = b.OK
 		}
 	}
 	for i := range built {
 		b := &built[i]
-		if b.Lib || !b.OK || b.Old {
+		if b.Lib || !b.OK {
 			continue
 		}
-		if ok, has := libOK[fmt.Sprintf("%s/%d", b.Prog, b.Mask)]; has && !ok {
+		if ok, has := libOK[fmt.Sprintf("%s/%d/%v", b.Prog, b.Mask, b.Old)]; has && !ok {
 			b.OK, b.Stage, b.Err = false, "library", "the imported library package was excluded"
 			os.RemoveAll(filepath.Join(w.H, "gen", b.Pkg))
 			nOK--
